@@ -1149,6 +1149,9 @@ func (x *prioExec) epilogue() {
 	}
 	if !x.errClosed {
 		x.fail("C07", "no-termination", "all inputs are closed and drained and every delivered item was released, but Err() was not closed within %s (virtual)", prioL)
+		if x.res.CtlOps > 0 {
+			x.fail("C17", "no-termination-after-control-calls", "after AddInput / RemoveInput calls: every registered input is closed and drained (or none is registered any more), every delivered item was released and GracefulStop() was called, but the discipline did not terminate within %s (virtual)", prioL)
+		}
 		x.logf("goroutines of the bubble: %s", bubbleStacks(x.ctl.bubbleID.Load()))
 		return
 	}
@@ -1230,14 +1233,14 @@ func runPrioV(sc PrioScenario, ctl *bubbleCtl) *prioResult {
 	x.shares = sharesOf(div, prios, sc.H)
 	x.div = div
 	x.mon = newDivMonitor(x, div)
-	exitDelay := []time.Duration{0, 10 * time.Nanosecond, 300 * time.Nanosecond}[sc.Seed%3]
+	exitDelay := []time.Duration{0, 10 * time.Nanosecond, 300 * time.Nanosecond, 3 * time.Microsecond}[sc.Seed%4] // the longest outlives the 1us the C19 census waits
 	nilCtx := sc.isV1() && (sc.Seed/3)%4 == 0
 	for _, op := range sc.Script {
 		if op.K == "cancel" {
 			nilCtx = false
 		}
 	}
-	b := prioBuild{Ver: sc.Ver, Div: x.mon.divide, DivV1: x.mon.divideV1, HandleExitDelay: exitDelay, NilCtx: nilCtx, ReuseInputsMap: (sc.Seed/5)%2 == 0, H: sc.H, OutCap: sc.OutCap, FbCap: sc.FbCap, Abort: x.abort, Entered: total + 8*int(sc.H) + 4096}
+	b := prioBuild{Ver: sc.Ver, Div: x.mon.divide, DivV1: x.mon.divideV1, HandleExitDelay: exitDelay, NilCtx: nilCtx, ReuseInputsMap: []int{0, 1, 0, 2, 0, 3}[(sc.Seed/5)%6], H: sc.H, OutCap: sc.OutCap, FbCap: sc.FbCap, Abort: x.abort, Entered: total + 8*int(sc.H) + 4096}
 	for _, in := range x.chans {
 		b.Inputs = append(b.Inputs, in)
 	}
